@@ -292,7 +292,7 @@ func (g *vlGen) readerOp(o *vlObj, seed uint64) vlOp {
 				}
 				d = int(o.readable[r.intn(lim)])
 			}
-			return vlOp{K: "until", B: o.id, M: d}
+			return vlOp{K: "until", B: o.id, M: d, N: r.intn(len(o.readable) + 1), S: seed}
 		case 10:
 			return vlOp{K: "rstr", B: o.id, N: g.readSize(o)}
 		case 11:
